@@ -75,7 +75,7 @@ pub fn program_from_bytes(data: &[u8], allow_fill: bool) -> Program {
             4 => Op::Child { parents: vec![sel, sel.rotate_left(5)], np: 0, s: seed(b) },
             5 => Op::ChildOfLocal { np: 0, s: seed(b) },
             6 | 7 => Op::SetLocalParent { span: sel, probe: false },
-            8 | 9 => Op::EnterLocal { np: a % 2, s: seed(b), probe: false },
+            8 | 9 => Op::EnterLocal { np: a % 2, s: seed(b), probe: false, re: vec![] },
             10 | 11 => Op::PopGuard { collect: true, early: false, unwind: false },
             12 | 13 | 14 => Op::Finish { span: sel },
             15 => Op::Cancel { span: sel },
